@@ -246,12 +246,26 @@ class Fn:
             self.eat()
             names = []
             while self.peek() != "|":
-                names.append(self.eat())
+                names.append(self.pattern()[0])
                 if self.peek() == ",":
                     self.eat()
             self.eat("|")
-            body = self.expr()
-            return f"(fun ({', '.join(names)}) => {body})"
+            if self.peek() == "{":
+                self.eat()
+                while self.peek() == "#" and self.peek(1) == "[":      # attributes inside the closure body
+                    depth, k = 0, self.i + 1
+                    while True:
+                        depth += {"[": 1, "]": -1}.get(self.t[k], 0)
+                        k += 1
+                        if depth == 0:
+                            break
+                    self.i = k
+                body = self.expr()
+                self.eat("}")
+            else:
+                body = self.expr()
+            arg = names[0] if len(names) == 1 and names[0].startswith("(") else "(" + ", ".join(names) + ")"
+            return f"(fun {arg} => {body})"
         if tok == "(" and self.peek(1) == ")":
             self.eat(); self.eat()
             return "()"
@@ -317,6 +331,20 @@ class Fn:
                     a = self.args()
                     return v if not a else f"({v} {' '.join(a)})"
                 return v
+            if tok in self.cfg.get("structs", ()) and self.peek() == "{":
+                self.eat("{")
+                fs_ = []
+                while self.peek() != "}":
+                    fld = self.eat()
+                    val = self.idents.get(fld, fld)
+                    if self.peek() == ":":
+                        self.eat()
+                        val = self.expr()
+                    fs_.append(f"{self.fields.get(fld, fld)} := {val}")
+                    if self.peek() == ",":
+                        self.eat()
+                self.eat("}")
+                return "{ " + ", ".join(fs_) + " }"
             if self.peek() == "(":
                 if tok not in self.calls:
                     raise TranslateError(f"call of {tok} is outside the translated subset")
@@ -751,6 +779,20 @@ _OPS_COMMON = dict(group="delta", file="src/delta.rs", calls={}, paths=_OPS_PATH
                    methods={"checked_add": lambda r, a: f"(checkedAdd32 {r} {a[0]})", "is_empty": lambda r, a: f"{r}.isEmpty"})
 
 FUNCS = [
+    dict(group="delta", file="src/signature.rs", name="compute", sig="fn compute(index: u32, data: &[u8]) -> Self",
+         lean="def blockCompute {D : Type} (H : List Nat → D) (index : Nat) (data : List Nat) : BlockSig D :=",
+         expr_body=True, structs=("Self",), fields={"weak_hash": "weak", "strong_hash": "strong"},
+         calls={}, paths={"RollingChecksum::new": "Copia.Checksum.Rolling.new", "StrongHash::compute": "H"},
+         methods={"digest": lambda r, a: f"{r}.digest"}),
+    dict(group="delta", file="src/signature.rs", fn="generate", sig=None, name="generate (the block list: `let blocks = if … else …;`)",
+         slice=("let blocks: Vec<BlockSignature> = if", "let expected_blocks"), slice_until=True,
+         lean="def generateBlocks {D : Type} (H : List Nat → D) (block_size : Nat) (data : List Nat) : List (BlockSig D) := Id.run do",
+         epilogue=["return blocks"], calls={}, paths={"BlockSignature::compute": "blockCompute H"},
+         verbatim=[('tracing::Span::current().record("file_size", file_size);', ""),
+                   ('tracing::Span::current().record("block_count", blocks.len());', ""),
+                   ('tracing::Span::current().record("parallel", data.len() > 64 * 1024);', "")],
+         methods={"par_chunks": lambda r, a: f"(chunks {r} {a[0]})", "chunks": lambda r, a: f"(chunks {r} {a[0]})",
+                  "enumerate": lambda r, a: f"(enumerate {r})", "map": lambda r, a: f"({r}.map {a[0]})"}),
     dict(_OPS_COMMON, name="push_copy", sig="fn push_copy(&mut self, offset: u64, len: u32)",
          lean="def pushCopyFwd (ops0 : List Op) (offset len : Nat) : List Op := Id.run do\n  -- world: `self.ops`, oldest first\n  let mut ops := ops0",
          verbatim=[('debug_assert!(len > 0, "copy operation must have non-zero length");', ""),
@@ -956,7 +998,7 @@ def translate(group):
             a0, a1 = f["slice"]
             if body.count(a0) != 1 or body.count(a1) != 1 or body.index(a0) > body.index(a1):
                 raise TranslateError(f"{f['name']}: the section `{a0}` … `{a1}` is no longer there")
-            end_ = body.index(a1) + len(a1)
+            end_ = body.index(a1) + (0 if f.get("slice_until") else len(a1))
             for _ in range(f.get("slice_close", 0)):
                 end_ = body.index("}", end_) + 1      # … and the closing brace(s) of the block the last statement sits in
             body = "{" + body[body.index(a0):end_] + "}"
@@ -965,7 +1007,12 @@ def translate(group):
                 raise TranslateError(f"{f['name']}: `{a_}` is no longer there")
             body = body.replace(a_, b_)
         t = Fn(tokenize(body), f)
-        lines = t.block(2)
+        if f.get("expr_body"):
+            t.eat("{")
+            lines = ["  " + t.expr()]
+            t.eat("}")
+        else:
+            lines = t.block(2)
         if f.get("epilogue"):
             lines += ["  " + x for x in f["epilogue"]]
         if t.i != len(t.t):
